@@ -170,8 +170,10 @@ impl KRange {
     /// Descending ranges are considered to be empty, with a size of zero.
     pub fn size(&self) -> Option<usize> {
         if self.is_bounded() {
-            let range = self.as_bounded_range();
-            let size = (range.end).max(range.start) as i128 - range.start as i128;
+            let start = self.start()? as i128;
+            let (end, inclusive) = self.end()?;
+            let end = end as i128 + if inclusive { 1 } else { 0 };
+            let size = end.max(start) - start;
             Some(usize::try_from(size).unwrap_or(usize::MAX))
         } else {
             None
